@@ -265,3 +265,10 @@ def run(ctx):
 
 def has_jump(spec):
     return any(a["term"]["cls"] in ("Rectangle", "Binary", "Discrete") or (a["term"]["cls"] in ("Trapezoid", "Triangle") and len(set(a["term"]["params"])) < len(a["term"]["params"])) for a in spec["activated"]) or spec["aggregation"] in ("DrasticSum", "NilpotentMaximum") or any(a["implication"] in ("DrasticProduct", "NilpotentMinimum", "BoundedDifference") for a in spec["activated"])
+
+
+def passive(ctx, fl, probe):
+    """attach this property's always-on monitor to a foreign workload (the repository's test-suite, see vf/pytest_plugin.py)"""
+    mon = IntegralMonitor(ctx, fl)
+    mon.install(probe)
+    return None
